@@ -8,6 +8,7 @@ CONSTANTS
   MaxSize = 3
   RangeCheck = TRUE
   CorruptSizes <- MC_None
+  WithMarshal = TRUE
   CorruptOffsets <- MC_None
 INVARIANTS TypeOK ShapeOK DefinedIffShape NoPanic BufInv SumIsDefinition
 PROPERTIES Refines AbsSumStable AbsResetRestores AbsTransparent
